@@ -2,3 +2,24 @@
 //! module without changing any visibility in the repository.
 #![allow(dead_code, unused_imports)]
 use super::*;
+
+/// partitions currently assigned to member `id` (None if not a member), in index order 0..len
+pub fn member_partitions(g: &ConsumerGroup, id: u32) -> Option<Vec<u32>> {
+    let m = g.members.get(&id)?;
+    let m = m.try_read().unwrap();
+    let mut v = Vec::new();
+    let mut i = 0u32;
+    while (i as usize) < m.partitions.len() {
+        v.push(*m.partitions.get(&i).expect("member partition indices must be 0..len"));
+        i += 1;
+    }
+    Some(v)
+}
+pub fn member_cursor(g: &ConsumerGroup, id: u32) -> (Option<u32>, Option<u32>) {
+    let m = g.members.get(&id).unwrap();
+    let m = m.try_read().unwrap();
+    (m.current_partition_index, m.current_partition_id)
+}
+pub fn members_count(g: &ConsumerGroup) -> usize {
+    g.members.len()
+}
